@@ -197,6 +197,10 @@ def t2(ctx, res):
     slots = kwonly(new)
     vnew = view(new, ctx.prog).body
     paths_new = enumerate_paths(vnew)
+    # stores through setattr with a computed name: readable only as "conditional or not"
+    dyn_sets = [x for x in walk_own(vnew) if isinstance(x, ast.Call) and dotted(x.func) == "setattr" and len(x.args) == 3
+                and norm(x.args[0]) == "cls" and not isinstance(x.args[1], ast.Constant)]
+    dyn_conditional = any(guards_of(Parents(vnew), x, stop_at_loop=True) for x in dyn_sets)
     for p in slots:
         n_params += 1
         if p == "properties":
@@ -242,7 +246,10 @@ def t2(ctx, res):
             result[npass] = labs
             unknown = unknown or any(x.startswith("other:") or x == "unset" for x in labs)
         good = result == {True: {"inherited"}, False: {"passed"}}
-        res.judge(True if good else (None if unknown else False), new, f"cls.{p} = <{p} if passed else inherited {p}>",
+        only_when_passed = result.get(True) == {"unset"} and result.get(False) == {"passed"}
+        if not good and result.get(True) == {"unset"} and result.get(False) == {"unset"} and dyn_sets and dyn_conditional:
+            only_when_passed = True   # the keyword is stored through a guarded setattr: not on every class
+        res.judge(True if good else (False if only_when_passed else (None if unknown else False)), new, f"cls.{p} = <{p} if passed else inherited {p}>",
                   detail={"not passed": sorted(result[True]), "passed": sorted(result[False])},
                   reason="class keyword falls back to the inherited attribute of the SAME name, and is stored on the class")
     # properties store exists
